@@ -86,15 +86,15 @@ def lineSubs (fl : R → Int) (castI : Int → R) (stride h w e : Nat) (src dst 
     List LineSub :=
   ts.map (lineSub fl castI stride h w e src dst)
 
-/-- smallest rounding margin over the line (both coordinates); `none` for an empty line -/
-def lineMargin (fl : R → Int) (castI : Int → R) (stride : Nat) (src dst : R × R) (ts : List R) :
-    Option R :=
-  let ms := ts.flatMap fun t =>
-    [roundMargin fl castI (samplePoint src.1 dst.1 t / castI stride),
-     roundMargin fl castI (samplePoint src.2 dst.2 t / castI stride)]
-  match ms with
-  | [] => none
-  | m :: rest => some (rest.foldl (fun a b => if b < a then b else a) m)
+/-- per sampled point: the rounding margins `|2·frac − 1|` (= twice the distance, in PAF-grid
+units, of the un-rounded coordinate from the nearest half-integer) of the **row** (y) and the
+**column** (x) coordinate — reported next to every rounded subscript so that the harness can treat
+decisions closer to a tie than the float resolution as knife edges -/
+def lineMargins (fl : R → Int) (castI : Int → R) (stride : Nat) (src dst : R × R) (ts : List R) :
+    List (R × R) :=
+  ts.map fun t =>
+    (roundMargin fl castI (samplePoint src.2 dst.2 t / castI stride),
+     roundMargin fl castI (samplePoint src.1 dst.1 t / castI stride))
 
 /-- `torch.linspace(0, 1, n)` over an exact field: `k/(n-1)` (`[0]` for `n = 1`) -/
 def linspace (castI : Int → R) (n : Nat) : List R :=
